@@ -23,7 +23,7 @@ from .. import roms, statefx
 
 def write_eval(prog: Program, layout: str, finished: bool, more: bool = True, lonlat: bool = True):
     """Abstract evaluation of Output.write for one layout and one outcome of the file-finished tests."""
-    fi = prog.role_func("output", "write")
+    fi = prog.lview(prog.role_func("output", "write"), keep=("_write_particle_variables",))
     dom = NFDomain(scalars={"n", "lic", "lrc", "ic", "rc"})
     log: dict[str, Any] = {"calls": [], "stores": []}
 
@@ -96,6 +96,7 @@ def write_eval(prog: Program, layout: str, finished: bool, more: bool = True, lo
         "output.instance_count": NF.atom("ic"),
         "output.record_count": NF.atom("rc"),
         "output.nctime": NF.atom("cached_nctime"),
+        "output.layout": layout,  # a plain string: tests on it (through any alias) are decided by evaluation
     })
     res, fr = it.run(fi, dict(state=Ref("state")), "output")
     return it, fr, log, fi
@@ -192,6 +193,7 @@ def compactify_sites(prog: Program, rep: Report) -> None:
         if fi.cls == prog.role_class.get("state") and fi.module.name == prog.role_module.get("state"):
             continue
         pm = None
+        fi = prog.lview(fi) if fi.cls else fi  # `layout = self.layout` reads as the attribute
         for c in statefx.len_change_calls(prog, fi):
             if not (isinstance(c.func, ast.Attribute) and c.func.attr == "compactify"):
                 continue
@@ -204,7 +206,7 @@ def compactify_sites(prog: Program, rep: Report) -> None:
                 if isinstance(par, ast.If) and any(any(x is cur for x in ast.walk(s_)) for s_ in par.body) and unparse(par.test) in ("self.layout == 'sparse'", "self.layout != 'dense'"):
                     guarded = True
                 cur = par
-            ok = guarded and fi.qual.endswith("Output.write")
+            ok = guarded and prog.effective_owners(fi.qual) == {f"{prog.role_module['output']}.{prog.role_class['output']}.write"}
             rep.check(rule, fi.qual, f"call site `{short(c)}`", ok, what_bad="the state is compactified outside the sparse branch of Output.write: under the dense layout values are written at [time, row index], which equals pid only while no row is ever removed - after a death every later particle lands in the wrong pid column", what_ok="only under the sparse layout", loc=fi.loc(c))
     if n == 0:
         raise AnalysisError("no call to state.compactify found (Output.write expected)")
